@@ -56,6 +56,16 @@ Theorem C20_gw_daily : forall (grw gw ampl s : R) series zeit,
   gw_day Soilfile grw gw ampl s series zeit = Some grw.
 Proof. exact gw_daily_lemma. Qed.
 
+(* the reader (soil.go:692-730) keeps every row of the requested id, in file order — also rows that repeat the
+   previous level — so a date given in the file has the level given for it *)
+Theorem C20_reader_keeps_rows : forall (rows : list (Z * Z * R)) id d v,
+  In (id, d, v) rows -> In (d, v) (gw_read rows id).
+Proof. exact gw_read_keeps_lemma. Qed.
+
+Theorem C20_gw_file_hit : forall (rows : list (Z * Z * R)) id d v,
+  StronglySorted Z.lt (dates (gw_read rows id)) -> In (id, d, v) rows -> level (gw_read rows id) d = Some v.
+Proof. exact gw_file_hit_lemma. Qed.
+
 (* the sinusoid is evaluated at the CONFIGURED phase (any integer, also negative or beyond a year) *)
 Theorem C20_gw_phase : forall (p : Z) (tag : R), sin_arg tag (gw_phase_of_config p) = sin_arg tag p.
 Proof. exact gw_phase_lemma. Qed.
@@ -80,3 +90,5 @@ Print Assumptions C20_gw_no_error.
 Print Assumptions C20_gw_sin.
 Print Assumptions C20_gw_daily.
 Print Assumptions C20_gw_phase.
+Print Assumptions C20_reader_keeps_rows.
+Print Assumptions C20_gw_file_hit.
